@@ -15,12 +15,18 @@ ToSet(s) == {s[i] : i \in 1..Len(s)}
 
 TInit == l = 1 /\ store = {} /\ cfg = [wt |-> FALSE, np |-> FALSE, ids |-> FALSE]
 
-TReset   == IsEvent("Reset") /\ store' = {} /\ cfg' = [wt |-> Ev.wt, np |-> Ev.np, ids |-> Ev.ids]
+\* Reset also logs the harness' block universe (measured on the real multihashes): it must be
+\* the universe of this specification -- same length classes, hash functions and multihash framing.
+TReset   == /\ IsEvent("Reset")
+            /\ ToSet(Ev.mhs) = MhTable /\ Len(Ev.mhs) = Cardinality(MhTable)
+            /\ store' = {} /\ cfg' = [wt |-> Ev.wt, np |-> Ev.np, ids |-> Ev.ids]
 TPut     == IsEvent("Put") /\ Ev.err = "" /\ Put(Ev.c)
 TPutMany == IsEvent("PutMany") /\ Ev.err = "" /\ PutMany(Ev.cs)
 TDelete  == IsEvent("Delete") /\ Ev.err = "" /\ Delete(Ev.c)
 TRead    == /\ IsEvent("Read") /\ Ev.detail = ""
-            /\ ReadRes(Ev.c) = [found |-> Ev.found, mh |-> Ev.mh]
+            /\ Ev.c \in Cids
+            /\ ReadRes(Ev.c).found = Ev.found /\ ReadRes(Ev.c).mh = Ev.mh
+            /\ (Ev.api # "Has" => ReadRes(Ev.c).size = Ev.size)      \* observed length of the bytes / GetSize
             /\ Query
 TAllKeys == /\ IsEvent("AllKeys") /\ Ev.detail = "" /\ Ev.prefixOK
             /\ ToSet(Ev.keys) = store /\ Len(Ev.keys) = Cardinality(store)
